@@ -11,7 +11,7 @@ LEVEL_TEXT = "Soundness (lossless, aligned, no silent repair) proved deductively
 LEVEL_NOTE = "Trusts the pyvc encoding (z3 string theory, code points), A-ITER (file.read semantics), z3/cvc5."
 TECHNIQUE = "contract-based deductive verification with ghost state (VCs from the ast of the real generator, z3 strings) + bounded completeness sweep"
 UNITS = [FX.unit_fixed_rows(), IF.unit_field_names_and_lengths(), VIO.unit_raw_rows()]
-UNITS += [VIO.unit_writer_sweep().also("C13")]
+UNITS += [VIO.unit_writer_file_sweep()]
 UNITS += [IF.unit_fnl_follows_cid()]
 from contracts import structure as ST2
 UNITS += [ST2.unit_no_hidden_state().also("C13")]
